@@ -175,4 +175,145 @@ theorem async_recv (attempts : List PyOut) :
       simp only [Py.asyncRecv]
       exact ih (fun x hx => h x (by simp [hx]))
 
+/-! ## `get_many` as a mapping: an independent reading of the dict -/
+
+/-- value stored under a key (first entry with that key; `dictSet_keys`: there is at most one) -/
+def dlook (key : Bytes) : List (Bytes × PyScalar) → Option PyScalar
+  | [] => none
+  | (k, v) :: rest => if k = key then some v else dlook key rest
+
+theorem dlook_append_miss (key : Bytes) (kvs : List (Bytes × PyScalar)) (k : Bytes) (v : PyScalar)
+    (h : dlook key kvs = none) : dlook key (kvs ++ [(k, v)]) = if k = key then some v else none := by
+  induction kvs with
+  | nil => simp [dlook]
+  | cons kv rest ih =>
+    obtain ⟨k0, v0⟩ := kv
+    simp only [dlook] at h ⊢
+    split at h
+    · cases h
+    · rename_i hne
+      simp only [List.cons_append, dlook, hne, if_false]
+      exact ih h
+
+theorem dlook_append_hit (key : Bytes) (kvs more : List (Bytes × PyScalar)) (v : PyScalar)
+    (h : dlook key kvs = some v) : dlook key (kvs ++ more) = some v := by
+  induction kvs with
+  | nil => simp [dlook] at h
+  | cons kv rest ih =>
+    obtain ⟨k0, v0⟩ := kv
+    simp only [dlook] at h
+    simp only [List.cons_append, dlook]
+    split
+    · rename_i he; rw [if_pos he] at h; exact h
+    · rename_i hne; rw [if_neg hne] at h; exact ih h
+
+theorem any_iff_dlook (kvs : List (Bytes × PyScalar)) (k : Bytes) :
+    kvs.any (fun kv => kv.1 = k) = (dlook k kvs).isSome := by
+  induction kvs with
+  | nil => rfl
+  | cons kv rest ih =>
+    obtain ⟨k0, v0⟩ := kv
+    simp only [List.any_cons, dlook]
+    by_cases he : k0 = k
+    · simp [he]
+    · simp [he, ih]
+
+/-- **C07.dictSet_lookup**: `dict[k] = v` — afterwards `k` maps to `v` and every other key to what it
+mapped to before -/
+theorem dictSet_lookup (kvs : List (Bytes × PyScalar)) (k : Bytes) (v : PyScalar) (key : Bytes) :
+    dlook key (dictSet kvs k v) = if key = k then some v else dlook key kvs := by
+  unfold dictSet
+  have hany := any_iff_dlook kvs k
+  split
+  · rename_i ha
+    -- some entry has key k: the mapped list
+    clear hany
+    induction kvs with
+    | nil => simp at ha
+    | cons kv rest ih =>
+      obtain ⟨k0, v0⟩ := kv
+      simp only [List.map_cons]
+      by_cases h0 : k0 = k
+      · subst h0
+        simp only [if_true, dlook]
+        by_cases hk : key = k0
+        · subst hk; simp
+        · have : ¬ k0 = key := fun e => hk e.symm
+          simp only [this, if_false, hk]
+          -- rest: mapping does not change other keys
+          have hrest : ∀ (l : List (Bytes × PyScalar)),
+              dlook key (l.map (fun kv => if kv.1 = k0 then (k0, v) else kv)) = dlook key l := by
+            intro l
+            induction l with
+            | nil => rfl
+            | cons x xs ihx =>
+              obtain ⟨a, b⟩ := x
+              simp only [List.map_cons, dlook]
+              by_cases ha0 : a = k0
+              · subst ha0; simp only [if_true, dlook, this, if_false]; exact ihx
+              · simp only [ha0, if_false, dlook]; rw [ihx]
+          exact hrest rest
+      · have har : rest.any (fun kv => kv.1 = k) = true := by
+          simp only [List.any_cons, h0, decide_false, Bool.false_or] at ha; exact ha
+        simp only [h0, if_false, dlook]
+        by_cases hk : k0 = key
+        · have : ¬ key = k := fun e => h0 (hk.trans e)
+          simp [hk, this]
+        · simp only [hk, if_false]
+          exact ih har
+  · rename_i ha
+    have hnone : dlook k kvs = none := by
+      rw [hany] at ha
+      cases h : dlook k kvs with
+      | none => rfl
+      | some x => rw [h] at ha; simp at ha
+    by_cases hk : key = k
+    · subst hk
+      rw [dlook_append_miss key kvs key v hnone]; simp
+    · simp only [hk, if_false]
+      cases hl : dlook key kvs with
+      | none =>
+        rw [dlook_append_miss key kvs k v hl]
+        have : ¬ k = key := fun e => hk e.symm
+        simp [this]
+      | some x => exact dlook_append_hit key kvs _ x hl
+
+/-- the value the last data varbind named `key` carries, if any (specification, reads the reply only) -/
+def lastBinding (key : Bytes) : List VarBind → Option PyScalar → Option PyScalar
+  | [], cur => cur
+  | var :: more, cur =>
+    if !var.value.isData then lastBinding key more cur
+    else match oidToStr var.oid, valueToPy var.value with
+      | .ok k, .ok v => lastBinding key more (if key = k then some v else cur)
+      | _, _ => lastBinding key more cur
+
+/-- **C07.get_many_mapping**: the dict `get_many` returns maps a dotted name to the value of the LAST
+data varbind of the reply that carries that name (NULL / noSuch* / endOfMibView varbinds contribute
+nothing), and to nothing if no data varbind carries it -/
+theorem get_many_mapping : ∀ (vars : List VarBind) (acc d : List (Bytes × PyScalar)) (key : Bytes),
+    dictSpec vars acc = some d → dlook key d = lastBinding key vars (dlook key acc)
+  | [], acc, d, key, h => by
+    simp only [dictSpec, Option.some.injEq] at h
+    subst h; rfl
+  | var :: more, acc, d, key, h => by
+    unfold dictSpec at h
+    unfold lastBinding
+    split at h
+    · rename_i hd
+      rw [if_pos hd]
+      exact get_many_mapping more acc d key h
+    · rename_i hd
+      rw [if_neg hd]
+      cases hk : oidToStr var.oid with
+      | ok k =>
+        cases hv : valueToPy var.value with
+        | ok v =>
+          rw [hk, hv] at h
+          simp only at h ⊢
+          rw [get_many_mapping more _ d key h, dictSet_lookup]
+        | err e => rw [hk, hv] at h; simp at h
+        | panic w => rw [hk, hv] at h; simp at h
+      | err e => rw [hk] at h; simp at h
+      | panic w => rw [hk] at h; simp at h
+
 end GufoSnmp.C07
